@@ -569,11 +569,14 @@ class Performance(object):
         if isinstance(performedparts, PerformedPart):
             self.performedparts = [performedparts]
         elif isinstance(performedparts, Itertype):
+            # materialise first: a one-shot iterator (a generator, `map`, `iter`)
+            # would be used up by the type check and leave no part to store
+            performedparts = list(performedparts)
             if not all([isinstance(pp, PerformedPart) for pp in performedparts]):
                 raise ValueError(
                     "`performedparts` should be a list of  `PerformedPart` objects!"
                 )
-            self.performedparts = list(performedparts)
+            self.performedparts = performedparts
         else:
             raise ValueError(
                 "`performedparts` should be a `PerformedPart` or a list of "
